@@ -27,6 +27,15 @@ Ltac dopt := repeat match goal with
   | |- context[olist ?o] => let D := fresh "D" in destruct o eqn:D
   end.
 
+(* a copy source given as a parameter: the caller / static data, or a block of the container summary *)
+Definition src_in (g : gst) (s : src) : Prop := forall b, s = SBlk b -> In b (gblocks g).
+Lemma src_in_caller g : src_in g SCaller. Proof. intros b H; discriminate. Qed.
+Lemma src_in_other g : src_in g SOther. Proof. intros b H; discriminate. Qed.
+Lemma src_from_blocks g s : src_in g s -> forall c : cfun, (forall b, (c b >= count b (gblocks g))%nat) -> src_cnt c s.
+Proof. intros Hf c Hc. destruct s; simpl; auto. specialize (Hf _ eq_refl). apply count_in in Hf. specialize (Hc b). lia. Qed.
+Ltac tstepf Sf := first [ match goal with |- T _ _ (Copy _ ?s :: _) _ _ => is_var s; apply T_copy; [side | apply Sf; intro; side |] end | tstep ].
+Ltac finf Sf := solve [cbn [andb orb negb]; cbn [evs st' oblocks out mutated nomut andb orb negb]; eexists; cbn [app map olist]; repeat tstepf Sf].
+
 Lemma getdata_sound g p e q k al : els g = p ++ e :: q -> sound gblocks (gblocks g) (script_getdata g e k al) k.
 Proof. intros E. prep g E. unfold sound, script_getdata, cp. destruct (edata e) eqn:D; [destruct (al 0%nat), (esz e =? 0)|]; fin. Qed.
 Lemma getname_sound g p e q k al : els g = p ++ e :: q -> sound gblocks (gblocks g) (script_getname g e k al) k.
@@ -55,10 +64,10 @@ Proof.
 Qed.
 
 (* ------------------------------------------------------------------ qtreetbl *)
-Lemma tree_put_new_sound Sz g key ns ds k al : sound gblocks (gblocks g) (script_tree_put_new Sz g key ns ds k al) k.
-Proof. destruct g as [h l0]. unfold sound, script_tree_put_new. destruct (al 0%nat), (al 1%nat), (al 2%nat), (ds =? 0); cbn [negb andb orb]; fin. Qed.
-Lemma tree_put_old_sound g p e q ds k al : els g = p ++ e :: q -> sound gblocks (gblocks g) (script_tree_put_old g p e q ds k al) k.
-Proof. intros E. prep g E. unfold sound, script_tree_put_old. destruct (ds =? 0), (al 0%nat), (edata e) eqn:D; fin. Qed.
+Lemma tree_put_new_sound Sz g key ns ds dfrom k al : src_in g dfrom -> sound gblocks (gblocks g) (script_tree_put_new Sz g key ns ds dfrom k al) k.
+Proof. intros Hf. assert (Sf := src_from_blocks g dfrom Hf). destruct g as [h l0]. unfold sound, script_tree_put_new. destruct (al 0%nat), (al 1%nat), (al 2%nat), (ds =? 0); cbn [negb andb orb]; finf Sf. Qed.
+Lemma tree_put_old_sound g p e q ds dfrom k al : src_in g dfrom -> els g = p ++ e :: q -> sound gblocks (gblocks g) (script_tree_put_old g p e q ds dfrom k al) k.
+Proof. intros Hf E. assert (Sf := src_from_blocks g dfrom Hf). prep g E. unfold sound, script_tree_put_old. destruct (ds =? 0), (al 0%nat), (edata e) eqn:D; finf Sf. Qed.
 Lemma tree_remove_sound g p e q succ k : els g = p ++ e :: q -> sound gblocks (gblocks g) (script_tree_remove g p e q succ) k.
 Proof.
   intros E. destruct succ as [sk|]; [|apply remove_elem_sound; auto].
@@ -68,6 +77,41 @@ Proof.
   - intro b. cnt. assert (X := f_equal (fun l => count b (flat_map eblocks l)) S). cbv beta in X. revert X. cnt. destruct (ename e), (edata e); cnt; lia.
   - apply T_nil. intro b. cnt. assert (X := f_equal (fun l => count b (flat_map eblocks l)) S). cbv beta in X. revert X. cnt. destruct (ename e), (edata e); cnt; lia.
 Qed.
+(* ------------------------------------------------------------------ DYNAMIC_VSPRINTF, putstrf / addstrf *)
+(* the formatting loop: every round's buffer is released before the next is requested; at the end the only extra block is the result *)
+Lemma vs_loop_T fuel : forall len size al k n (c : cfun),
+  T c n (fst (fst (fst (vs_loop fuel len size al k n)))) (fun x => (count x (olist (snd (fst (fst (vs_loop fuel len size al k n))))) + c x)%nat) (snd (fst (vs_loop fuel len size al k n))).
+Proof.
+  induction fuel as [|f IH]; intros len size al k n c; cbn [vs_loop].
+  - cbn [fst snd olist]. apply T_nil. intro; side.
+  - destruct (al k); [destruct (len <? size)|].
+    + cbn [fst snd olist]. tsteps.
+    + specialize (IH len (size * 2) al (S k) (n + 1) c).
+      destruct (vs_loop f len (size * 2) al (S k) (n + 1)) as [[[ev r] n'] k']. cbn [fst snd] in *.
+      tstep. tstep. eapply T_ext; [|exact IH]. intro; side.
+    + cbn [fst snd olist]. tsteps.
+Qed.
+Lemma with_tmp_sound g len k al body :
+  (forall t n1 al1, sound gblocks (gblocks (mkG (t :: hdr g) (els g))) (body (mkG (t :: hdr g) (els g)) t n1 al1) n1 /\
+                    hdr (st' (body (mkG (t :: hdr g) (els g)) t n1 al1)) = t :: hdr g) ->
+  sound gblocks (gblocks g) (with_tmp g len k al body) k.
+Proof.
+  intros Hb. unfold with_tmp. assert (V := vs_loop_T vs_fuel len 1024 al 0%nat k (fun x => count x (gblocks g))).
+  destruct (vs_loop vs_fuel len 1024 al 0%nat k) as [[[ev r] n'] k']. cbn [fst snd] in V.
+  destruct r as [t|].
+  - destruct (Hb t n' (shift al k')) as [[k2 Hx] Hh]. unfold sound. cbn [evs st'].
+    exists k2. eapply T_app; [exact V|]. eapply T_app.
+    + eapply T_ext; [|exact Hx]. intro b. destruct g. cnt. lia.
+    + apply T_free; [|apply T_nil; intro b]; cbv beta; unfold gblocks; cbn [hdr els]; rewrite Hh; cnt; lia.
+  - unfold sound. cbn [evs st' nomut]. exists n'. exact V.
+Qed.
+Lemma src_in_tmp t h l0 : src_in (mkG (t :: h) l0) (SBlk t).
+Proof. intros b E. inversion E; subst. unfold gblocks. simpl. auto. Qed.
+
+Ltac crackh := repeat match goal with
+  | |- context[if ?b then _ else _] => destruct b
+  | |- context[match ?x with _ => _ end] => destruct x
+  end; reflexivity.
 Lemma nothing_sound g k : sound gblocks (gblocks g) (nomut g [] Nothing) k.
 Proof. destruct g. unfold sound. fin. Qed.
 Ltac by_split := match goal with
@@ -76,25 +120,29 @@ Ltac by_split := match goal with
   end.
 Theorem tree_step_sound Sz g o k al : sound gblocks (gblocks g) (tree_step Sz g o k al) k.
 Proof.
-  destruct o; cbn [tree_step]; try by_split;
-    eauto using nothing_sound, clear_sound, tree_put_old_sound, tree_put_new_sound, getdata_sound, tree_remove_sound, getname_sound, getpair_sound.
+  destruct o; cbn [tree_step]; try (apply with_tmp_sound; intros t n1 al1); try by_split;
+    eauto using nothing_sound, clear_sound, tree_put_old_sound, tree_put_new_sound, getdata_sound, tree_remove_sound, getname_sound, getpair_sound, src_in_caller.
+  - split; [apply tree_put_old_sound; [apply src_in_tmp|exact S]|]. unfold script_tree_put_old. crackh.
+  - split; [apply tree_put_new_sound; apply src_in_tmp|]. unfold script_tree_put_new. crackh.
 Qed.
 
 (* ------------------------------------------------------------------ qhashtbl *)
-Lemma hash_put_new_sound Sz g key ns ds k al : sound gblocks (gblocks g) (script_hash_put Sz g None key ns ds k al) k.
-Proof. destruct g as [h l0]. unfold sound, script_hash_put, cp. destruct (al 0%nat), (al 1%nat), (al 2%nat), (ds =? 0); fin. Qed.
-Lemma hash_put_old_sound Sz g p e q key ns ds k al : els g = p ++ e :: q -> sound gblocks (gblocks g) (script_hash_put Sz g (Some (p, e, q)) key ns ds k al) k.
-Proof. intros E. prep g E. unfold sound, script_hash_put, cp. destruct (al 0%nat), (al 1%nat), (ds =? 0), (ename e) eqn:Dn, (edata e) eqn:Dd; fin. Qed.
+Lemma hash_put_new_sound Sz g key ns ds dfrom k al : src_in g dfrom -> sound gblocks (gblocks g) (script_hash_put Sz g None key ns ds dfrom k al) k.
+Proof. intros Hf. assert (Sf := src_from_blocks g dfrom Hf). destruct g as [h l0]. unfold sound, script_hash_put, cp. destruct (al 0%nat), (al 1%nat), (al 2%nat), (ds =? 0); finf Sf. Qed.
+Lemma hash_put_old_sound Sz g p e q key ns ds dfrom k al : src_in g dfrom -> els g = p ++ e :: q -> sound gblocks (gblocks g) (script_hash_put Sz g (Some (p, e, q)) key ns ds dfrom k al) k.
+Proof. intros Hf E. assert (Sf := src_from_blocks g dfrom Hf). prep g E. unfold sound, script_hash_put, cp. destruct (al 0%nat), (al 1%nat), (ds =? 0), (ename e) eqn:Dn, (edata e) eqn:Dd; finf Sf. Qed.
 Theorem hash_step_sound Sz g o k al : sound gblocks (gblocks g) (hash_step Sz g o k al) k.
 Proof.
-  destruct o; cbn [hash_step]; try by_split;
-    eauto using nothing_sound, clear_sound, hash_put_old_sound, hash_put_new_sound, getdata_sound, remove_elem_sound, getpair_sound.
+  destruct o; cbn [hash_step]; try (apply with_tmp_sound; intros t n1 al1); try by_split;
+    eauto using nothing_sound, clear_sound, hash_put_old_sound, hash_put_new_sound, getdata_sound, remove_elem_sound, getpair_sound, src_in_caller.
+  - split; [apply hash_put_old_sound; [apply src_in_tmp|exact S]|]. unfold script_hash_put. crackh.
+  - split; [apply hash_put_new_sound; apply src_in_tmp|]. unfold script_hash_put. crackh.
 Qed.
 
 (* ------------------------------------------------------------------ qlist / wrappers / qhasharr *)
-Lemma list_addat_sound Sz g pos ds from k al : from <> SBlk k -> (forall b, from = SBlk b -> In b (gblocks g)) -> sound gblocks (gblocks g) (script_list_addat Sz g pos ds from k al) k.
+Lemma list_addat_sound Sz g pos ds from k al : src_in g from -> sound gblocks (gblocks g) (script_list_addat Sz g pos ds from k al) k.
 Proof.
-  intros Hk Hf. destruct g as [h l0]. unfold sound, script_list_addat, cp.
+  intros Hf. destruct g as [h l0]. unfold sound, script_list_addat, cp.
   assert (Sf : forall c : cfun, (forall b, (c b >= count b (gblocks (mkG h l0)))%nat) -> src_cnt c from).
   { intros c Hc. destruct from; simpl; auto. specialize (Hf _ eq_refl). apply count_in in Hf. specialize (Hc b). lia. }
   destruct (al 0%nat), (al 1%nat), (ds =? 0); cbn [andb orb negb]; cbn [evs st' nomut]; eexists; cbn [app map olist];
@@ -127,20 +175,30 @@ Theorem list_step_sound Sz g o k al : sound gblocks (gblocks g) (list_step Sz g 
 Proof.
   destruct o; cbn [list_step]; try by_split;
     eauto using nothing_sound, clear_sound, getdata_sound, remove_elem_sound, list_popat_sound, list_gettmp_sound, list_toarray_sound.
-  - apply list_addat_sound; destruct local; try discriminate; intros b H; discriminate.
+  - apply list_addat_sound; destruct local; intros b H; discriminate.
+  - apply with_tmp_sound; intros t n1 al1. destruct (len =? 0).
+    + split; [apply nothing_sound|reflexivity].
+    + split; [apply list_addat_sound; apply src_in_tmp|unfold script_list_addat; crackh].
   - destruct g as [h l0]. unfold sound. cbn [evs st']. eexists. tsteps.
 Qed.
 Theorem harr_step_sound g o k al : sound gblocks (gblocks g) (harr_step g o k al) k.
-Proof. destruct g as [h l0]. destruct o; unfold sound, harr_step, cp; [destruct (al 0%nat), (ds =? 0)|destruct (al 0%nat), (al 1%nat), (ds =? 0)|]; fin. Qed.
+Proof.
+  destruct o.
+  - destruct g as [h l0]; unfold sound, harr_step, cp; destruct (al 0%nat), (ds =? 0); fin.
+  - destruct g as [h l0]; unfold sound, harr_step, cp; destruct (al 0%nat), (al 1%nat), (ds =? 0); fin.
+  - cbn [harr_step]. apply with_tmp_sound; intros t n1 al1. split; [|reflexivity]. unfold sound. cbn [evs st']. eexists. apply T_nil. intro; reflexivity.
+  - destruct g as [h l0]; unfold sound, harr_step; fin.
+Qed.
 
 (* ------------------------------------------------------------------ qlisttbl *)
-Lemma ltbl_put_sound Sz g uniq top fwd key ns ds k al : sound gblocks (gblocks g) (script_ltbl_put Sz g uniq top fwd key ns ds k al) k.
+Lemma ltbl_put_sound Sz g uniq top fwd key ns ds dfrom k al : src_in g dfrom -> sound gblocks (gblocks g) (script_ltbl_put Sz g uniq top fwd key ns ds dfrom k al) k.
 Proof.
+  intros Hf. assert (Sf := src_from_blocks g dfrom Hf).
   destruct g as [h l0]. unfold sound, script_ltbl_put, cp.
-  destruct (al 0%nat), (al 1%nat), (al 2%nat); cbn [andb]; try (destruct (ds =? 0); fin).
+  destruct (al 0%nat), (al 1%nat), (al 2%nat); cbn [andb]; try (destruct (ds =? 0); finf Sf).
   cbn [evs st' hdr els]. eexists. cbn [app].
   assert (P := fun b => count_flat_filter b eblocks (keyis key) l0).
-  destruct (ds =? 0); cbn [app]; repeat tstep;
+  destruct (ds =? 0); cbn [app]; repeat tstepf Sf;
     (rewrite <- (app_nil_r (map Free _)); apply T_frees; [intro b; specialize (P b); destruct uniq, fwd; cnt; lia|]; apply T_nil; intro b; specialize (P b); destruct uniq, top, fwd; cnt; lia).
 Qed.
 Lemma ltbl_remove_sound g fwd key k : sound gblocks (gblocks g) (script_ltbl_remove g fwd key) k.
@@ -194,8 +252,8 @@ Proof.
 Qed.
 Theorem ltbl_step_sound Sz g o k al : sound gblocks (gblocks g) (ltbl_step Sz g o k al) k.
 Proof.
-  destruct o; cbn [ltbl_step]; try by_split;
-    eauto using nothing_sound, clear_sound, getdata_sound, getpair_sound, ltbl_put_sound, ltbl_remove_sound, ltbl_getmulti_sound.
+  destruct o; cbn [ltbl_step]; try (apply with_tmp_sound; intros t n1 al1; split; [apply ltbl_put_sound; apply src_in_tmp|unfold script_ltbl_put; crackh]); try by_split;
+    eauto using nothing_sound, clear_sound, getdata_sound, getpair_sound, ltbl_put_sound, ltbl_remove_sound, ltbl_getmulti_sound, src_in_caller.
 Qed.
 
 (* ------------------------------------------------------------------ qvector *)
